@@ -221,6 +221,73 @@ def authenticated_bytes(chk):
     chk.floor('authenticated-text cases', n, 6)
 
 
+def mac_restart_sets_fill(chk):
+    """EAX keeps (cbcmac, buf, ptr): running CBC-MAC value, pending bytes, their count.  Whenever a new OMAC computation is started by
+    overwriting ctx->cbcmac (zeroes, or a saved pre-processed state), the fill count belongs to the *previous* computation: ctx->ptr must be
+    assigned before the context is handed to any routine (do_cbcmac_chunk, do_pad read it) and before returning.  Path rule over the
+    CFG of every function of eax.c that bulk-writes ctx->cbcmac."""
+    R = 'eax-mac-restart-sets-fill'
+    s = 'src/aead/eax.c'
+    u = build.load_unit(s)
+    L = irf.Layouts(u)
+    fc, fp = L.field('br_eax_context', 'cbcmac'), L.field('br_eax_context', 'ptr')
+    if fc is None or fp is None:
+        raise AnalysisBroken('br_eax_context.cbcmac / ptr vanished')
+    n = 0
+    for f in u['functions']:
+        if not f.get('blocks'):
+            continue
+        F = irf.Func(u, f)
+        if not f['params'] or 'br_eax_context' not in f['params'][0]['ty']:
+            continue
+        ctx = {'k': 'a', 'v': 0}
+
+        def is_ctx_field(o, fld):
+            if o['k'] not in ('i', 'a'):
+                return False
+            b, off = F.addr_of(o)
+            return b == ctx and off == fld[0]
+        starts = [i for i in F.insts.values() if i['op'] == 'call' and (i.get('callee') or '').startswith(('llvm.memcpy', 'llvm.memset'))
+                  and is_ctx_field(i['ops'][0], fc)]
+        for st in starts:
+            n += 1
+            inst = '%s: after ctx->cbcmac is overwritten (line %s), ctx->ptr is assigned before the context is used or the function returns' % (F.name, st.get('line'))
+            # forward search
+            bad = None
+            b0 = F.block_of[st['id']]
+            work = [(b0, F.order[st['id']])]
+            seen = set()
+            while work and bad is None:
+                b, after = work.pop()
+                blk = next(x for x in F.blocks if x['id'] == b)
+                done = False
+                for i in blk['insts']:
+                    if F.order[i['id']] <= after:
+                        continue
+                    if i['op'] == 'store' and is_ctx_field(i['ops'][1], fp):
+                        done = True
+                        break
+                    if i['op'] == 'call' and not (i.get('callee') or '').startswith('llvm.') and any(
+                            o['k'] in ('i', 'a') and F.addr_of(o) == (ctx, 0) for o in i['ops']):
+                        bad = 'the context reaches %s() at line %s' % (i.get('callee') or 'an indirect call', i.get('line'))
+                        break
+                    if i['op'] == 'ret':
+                        bad = 'the function returns at line %s' % i.get('line')
+                        break
+                if done or bad:
+                    continue
+                for sb in F.succ[b]:
+                    if sb not in seen:
+                        seen.add(sb)
+                        work.append((sb, -1))
+            if bad is None:
+                chk.ok(R, inst, F.where(st))
+            else:
+                chk.violation(R, inst, F.where(st), bad + ' with the fill count of the previous computation: bytes left in ctx->buf are '
+                              'authenticated as if they belonged to the new input', key='%s %s %s' % (R, F.name, starts.index(st)))
+    chk.floor('MAC restarts', n, 4)
+
+
 def run(tier):
     chk = report.Check('C14', tier,
                        'Static: br_ccm_reset returns 0 (and reaches no block-cipher call) under each forbidden parameter range of RFC 3610 / '
@@ -283,6 +350,7 @@ def run(tier):
     tag_compare_shape(chk, 'src/aead/ccm.c', 'br_ccm_check_tag', 'br_ccm_get_tag', 'get_tag()')
     chunk_completion(chk)
     authenticated_bytes(chk)
+    mac_restart_sets_fill(chk)
     chk.floor('obligations', len(chk.obls), 18)
     from .. import lints
     lints.length_is_boolean(chk, ['src/aead/'])
